@@ -141,6 +141,7 @@ def op_list(cls_name, rng, n, dt=None, amp=1.0):
         ('set:smooth_freq_range', {'limits': (0.3 / q, 15.0 / q)}),
         ('set:smooth_freq_points', {'value': 9}),
         ('gen_smooth_fa_spectrum', {'smooth_fa_freqs': f1 * 1.1}),
+        ('gen_smooth_fa_spectrum', {'smooth_fa_freqs': [float(t) for t in f2 * 0.9]}),     # a plain list, as the setters accept
         ('generate_smooth_fa_spectrum', {}),
         # assignment through the public attribute name (the clean library ignores it; whatever it does, it must do all of it)
         ('set:values', {'values': amp * rng.normal(size=n)}),
